@@ -11,7 +11,8 @@ What is read (non-recursive engine; fail closed - an unknown shape is an AnchorE
   * ElemCallTemplate / ElemApplyTemplates / ElemApplyImport push themselves as invoker and pop; xsl:apply-imports
     tests getCurrentTemplate() == 0 first and raises NoCurrentTemplate;
   * StylesheetExecutionContextDefault::reset / push / pop / getCurrentTemplate on m_currentTemplateStack;
-  * VariablesStack::findXObject evaluates a top-level variable with (pushCurrentTemplate(0) .. popCurrentTemplate() around getValue) or without
+  * VariablesStack::findXObject evaluates a top-level variable with (an RAII helper defined in VariablesStack.cpp: constructor pushCurrentTemplate(0),
+    destructor popCurrentTemplate(), declared right before var->getValue()) or without
     (the code now) a null current rule -> gen_global_null;
   * ElemTemplateElement::executeChildren (used by ElemVariable::getValue) runs every child through execute(); the
     shortcut is set up by postConstruction for every element (the code now: the template of a top-level variable's
@@ -153,15 +154,27 @@ def gen_currule():
     fx_ = fn(vs, "VariablesStack::findXObject", "VariablesStack::findXObject")
     if "var -> getValue ( executionContext , doc )" not in fx_:
         raise AnchorError("VariablesStack::findXObject: var->getValue(executionContext, doc) not found")
-    if "CurrentTemplate" not in toks(vs):
+    tvs = toks(vs)
+    n_push = len(re.findall(r"\bpushCurrentTemplate\b", tvs))
+    n_pop = len(re.findall(r"\bpopCurrentTemplate\b", tvs))
+    n_other = len(re.findall(r"\b(?:getCurrentTemplate|PushAndPopCurrentTemplate|m_currentTemplateStack)\b", tvs))
+    if n_push == 0 and n_pop == 0 and n_other == 0:
         facts["global_null"] = False
-    elif re.search(r"executionContext \. pushContextMarker \( \) ; executionContext \. pushCurrentTemplate \( 0 \) ; .*"
-                   r"var -> getValue \( executionContext , doc \) ; .*"
-                   r"executionContext \. popCurrentTemplate \( \) ; executionContext \. popContextMarker \( \) ;", fx_) \
-            and toks(vs).count("CurrentTemplate") == 2:
-        facts["global_null"] = True
     else:
-        raise AnchorError("VariablesStack.cpp touches the current template in a way that is not recognised")
+        # an RAII helper defined in this file: the constructor pushes a null rule, the destructor pops it (also when the
+        # evaluation is left by an exception); used once, in the block of findXObject that calls getValue, right before it
+        mc = re.search(r"class (\w+) \{ public : \1 \( StylesheetExecutionContext & executionContext \) : "
+                       r"m_executionContext \( executionContext \) \{ m_executionContext \. pushCurrentTemplate \( 0 \) ; \} "
+                       r"~ \1 \( \) \{ m_executionContext \. popCurrentTemplate \( \) ; \} "
+                       r"private : \1 \( const \1 & \) ; \1 & operator = \( const \1 & \) ; "
+                       r"StylesheetExecutionContext & m_executionContext ; \} ;", tvs)
+        if not mc or n_push != 1 or n_pop != 1 or n_other != 0:
+            raise AnchorError("VariablesStack.cpp touches the current template in a way that is not recognised")
+        cls = mc.group(1)
+        use = r"const " + cls + r" \w+ \( executionContext \) ; theNewValue = var -> getValue \( executionContext , doc \) ; \}"
+        if not re.search(use, fx_) or len(re.findall(r"\b" + cls + r"\b", tvs)) != 8 or len(re.findall(r"\b" + cls + r"\b", fx_)) != 1:
+            raise AnchorError("VariablesStack::findXObject: the null-current-template guard is not the statement before var->getValue(), or is used elsewhere")
+        facts["global_null"] = True
     # ---------------------------------------------------------------- census
     known = {"ElemTemplate.cpp", "ElemForEach.cpp", "StylesheetExecutionContextDefault.cpp", "ElemApplyImport.cpp",
              "ElemTemplateElement.cpp", "VariablesStack.cpp"}
